@@ -164,6 +164,21 @@ func zzValue(d int, path string, s *zzSpec, n int, arrayLevel int) zzFacets {
 			mf := zzMember(d, path+"/"+name, s.props[name], s.required[name], n)
 			f = f.and(mf.when(isObj))
 		}
+	case "object-ap":
+		isObj := zzKindIs(d, path, zzvrt.KObject)
+		f.typ = isObj
+		for _, name := range s.order {
+			mf := zzMember(d, path+"/"+name, s.props[name], s.required[name], n)
+			f = f.and(mf.when(isObj))
+		}
+		for i := 0; i < zzvrt.Param("E", 1); i++ {
+			ep := path + "/+" + strconv.Itoa(i)
+			present := zzvrt.And(isObj, zzvrt.Not(zzKindIs(d, ep, zzvrt.KAbsent)))
+			ef := zzValue(d, ep, s.items, n, 0)
+			nf := zzAllTrue()
+			nf.dontCare = zzKindIs(d, ep, zzvrt.KNull)
+			f = f.and(ef.and(nf).when(present))
+		}
 	case "map":
 		isObj := zzKindIs(d, path, zzvrt.KObject)
 		f.typ = isObj
